@@ -27,6 +27,8 @@ pub enum VotePolicy {
     AsUnknown,
     /// answers with the id of the candidate itself (a reflected / spoofed vote)
     AsCandidate,
+    /// answers at once, but names another round than the one it was asked in (or none)
+    WrongRound,
 }
 
 #[derive(Clone, Debug, Serialize, Deserialize, PartialEq)]
@@ -93,12 +95,13 @@ pub fn gen_plan(rng: &mut Rng, thorough: bool) -> OrchPlan {
     let min_timeout_ms = *rng.pick(&[100u64, 300, 500]);
     let scripts = (0..n_nodes)
         .map(|_| PeerScript {
-            votes: match rng.below(10) {
+            votes: match rng.below(11) {
                 0 => VotePolicy::Never,
                 1..=3 => VotePolicy::Always,
                 4..=5 => VotePolicy::Twice,
                 6..=7 => VotePolicy::Late(rng.range(50, 3 * min_timeout_ms)),
                 8 => VotePolicy::AsCandidate,
+                9 => VotePolicy::WrongRound,
                 _ => VotePolicy::AsUnknown,
             },
             competes: if rng.chance(1, 3) {
@@ -231,7 +234,21 @@ async fn scripted_peer(i: usize, plan: OrchPlan, reply_of: ReplyOf) {
                 VotePolicy::Late(ms) => (me.clone(), 1, *ms),
                 VotePolicy::AsUnknown => ("stranger".to_owned(), 1, 0),
                 VotePolicy::AsCandidate => (cand.clone(), 1, 0),
+                VotePolicy::WrongRound => (me.clone(), 1, 0),
             };
+            // a well-behaved voter names the round of the request it answers
+            let round = match (&sc.votes, req.get("round").cloned()) {
+                (VotePolicy::WrongRound, Some(r)) => {
+                    if r.as_u64().map(|x| x % 2 == 0).unwrap_or(true) {
+                        Value::Null
+                    } else {
+                        json!(r.as_u64().unwrap_or(0).wrapping_add(1))
+                    }
+                }
+                (_, Some(r)) => r,
+                (_, None) => Value::Null,
+            };
+            let wrong_round = matches!(sc.votes, VotePolicy::WrongRound);
             let s2 = sock.clone();
             let ro = reply_of.clone();
             tokio::spawn(async move {
@@ -239,12 +256,20 @@ async fn scripted_peer(i: usize, plan: OrchPlan, reply_of: ReplyOf) {
                     tokio::time::sleep(Duration::from_millis(delay)).await;
                     simcore::ctx::count("scripted_late_vote");
                 }
-                let m = json!({"vote": {"response": {"nodeId": id_in_msg}}}).to_string();
+                let mut body = json!({"nodeId": id_in_msg});
+                if !round.is_null() {
+                    body["round"] = round.clone();
+                }
+                let m = json!({"vote": {"response": body}}).to_string();
                 for _ in 0..copies {
                     if s2.send_to(m.as_bytes(), target).await.is_ok() {
                         let id = simcore::net::LAST_SENT.with(|l| l.get());
-                        ro.lock().expect("ro").insert(id, Some(req_id));
+                        // a vote that names another round does not answer this request
+                        ro.lock().expect("ro").insert(id, if wrong_round { None } else { Some(req_id) });
                     }
+                }
+                if wrong_round {
+                    simcore::ctx::count("scripted_wrong_round_vote");
                 }
                 if copies > 1 {
                     simcore::ctx::count("scripted_duplicate_vote");
